@@ -58,6 +58,16 @@ impl<'a> XmlEvent<'a> {
     { unimplemented!() }
 }
 
+// ---------- xml::escape ----------
+// `escape_str_attribute(s) -> Cow<str>` (xml-rs escape.rs): `<` `>` `"` `'` `&` and \n \r \t become entities.  Which
+// entities is xml-rs's business (uninterpreted); the contract pins WHERE the escaped text goes.
+pub uninterp spec fn xml_esc_attr(s: Seq<char>) -> Seq<char>;
+
+#[verifier::external_body]
+pub fn verif_xml_escape_attr(s: &str) -> (r: String)
+    ensures r@ == xml_esc_attr(s@)
+{ unimplemented!() }
+
 impl StartElementBuilder {
     #[verifier::external_body]
     pub fn attr(self, name: &str, value: &str) -> (r: StartElementBuilder)
